@@ -73,6 +73,73 @@ AMBIENT_PREFIXES = ("random.", "time.", "uuid.", "secrets.", "os.environ", "os.g
                     "datetime.datetime.now", "datetime.date.today", "os.urandom", "threading.get_ident", "os.getpid")
 
 
+def rule_persistent_cache(ctx: Ctx, repo, scope_funcs):
+    """R-C15-7: state kept on disk outlives the process, so it is part of the history the result must not depend on.  A file that is read back
+    instead of recomputing a value must be named by a key that depends on every input of that value: the attributes of the tokenizer's extractors
+    that flow into the computation (def-use closure over the function's locals, including `x.update(e.attr)`-style accumulation) must all flow
+    into the file's path as well."""
+    IO_READ = ("read_bytes", "read_text", "open", "load", "loads")
+    n = 0
+    for q, mod, fn in scope_funcs:
+        reads = [c for c in walk_local(fn) if isinstance(c, ast.Call) and isinstance(c.func, ast.Attribute) and c.func.attr in ("read_bytes", "read_text")]
+        reads += [c for c in walk_local(fn) if isinstance(c, ast.Call) and dotted(c.func) == "open" and c.args]
+        if not reads:
+            continue
+        loopvars = set()
+        for x in ast.walk(fn):
+            if isinstance(x, ast.comprehension) and norm(x.iter).endswith(".extractors"):
+                loopvars |= {t.id for t in ast.walk(x.target) if isinstance(t, ast.Name)}
+            if isinstance(x, ast.For) and norm(x.iter).endswith(".extractors"):
+                loopvars |= {t.id for t in ast.walk(x.target) if isinstance(t, ast.Name)}
+        dep = {}
+
+        def deps(e):
+            out = set()
+            for y in ast.walk(e):
+                if isinstance(y, ast.Attribute) and isinstance(y.value, ast.Name) and y.value.id in loopvars:
+                    out.add(y.attr)
+                if isinstance(y, ast.Name) and isinstance(y.ctx, ast.Load):
+                    out |= dep.get(y.id, set())
+            return out
+
+        changed = True
+        while changed:
+            changed = False
+            for st in ast.walk(fn):
+                tgt, val = [], None
+                if isinstance(st, ast.Assign):
+                    tgt, val = [t.id for t0 in st.targets for t in ast.walk(t0) if isinstance(t, ast.Name)], st.value
+                elif isinstance(st, (ast.AugAssign, ast.AnnAssign)) and isinstance(st.target, ast.Name) and st.value is not None:
+                    tgt, val = [st.target.id], st.value
+                elif isinstance(st, ast.Expr) and isinstance(st.value, ast.Call) and isinstance(st.value.func, ast.Attribute) and isinstance(st.value.func.value, ast.Name) \
+                        and st.value.func.attr in ("update", "append", "extend", "add", "insert", "write"):
+                    tgt, val = [st.value.func.value.id], st.value
+                if val is None:
+                    continue
+                d = deps(val)
+                for t in tgt:
+                    if not d <= dep.get(t, set()):
+                        dep[t] = dep.get(t, set()) | d
+                        changed = True
+        # what is computed when the file is absent: the keyword/positional arguments of the `.compile(...)`-like call whose result is written back
+        writes = [c for c in walk_local(fn) if isinstance(c, ast.Call) and isinstance(c.func, ast.Attribute) and c.func.attr in ("write_bytes", "write_text")]
+        need = set()
+        producers = [c for c in walk_local(fn) if isinstance(c, ast.Call) and isinstance(c.func, ast.Attribute) and c.func.attr == "compile" and (c.args or c.keywords)]
+        for c in producers:
+            for a in list(c.args) + [k.value for k in c.keywords]:
+                need |= deps(a)
+        for r in reads:
+            n += 1
+            path = r.func.value if isinstance(r.func, ast.Attribute) else r.args[0]
+            have = deps(path)
+            ok = bool(need) and need <= have
+            ctx.ob("R-C15-7", f"{q}/cache-key-covers-inputs:{norm(path)[:30]}", ok,
+                   f"`{norm(r)[:50]}` reads back a stored result; the value it replaces is computed from the extractor attributes {sorted(need)}, the file's path depends on "
+                   f"{sorted(have)}: an attribute missing from the key makes two tokenizers that differ in it share one file, so what an earlier run (even an earlier "
+                   "process) stored decides the matches of this one", node=r, mod=mod)
+    ctx.ob("R-C15-7", "package/persistent-reads", n >= 1, f"{n} read(s) of persistent state on the extraction path checked", node=None, mod=repo.mod("tokenizers"), nontrivial=False)
+
+
 def run(ctx: Ctx):
     ctx.level = "other"
     ctx.explanation = (
@@ -388,6 +455,7 @@ def run(ctx: Ctx):
             if not isinstance(s, (ast.FunctionDef, ast.ClassDef)):
                 top += list(ast.walk(s))
         ambient_calls("<module>", top, m)
+    rule_persistent_cache(ctx, repo, [(q, eff.funcs[q].mod, eff.funcs[q].node) for q in scope])
     # ---- R-C15-5 observation: module-level list handed to callers -------------------
     f = repo.need_func(ENTRY)
     shared_returns = [r for r in walk_local(f) if isinstance(r, ast.Return) and isinstance(r.value, ast.Name) and r.value.id in repo.mod("find").imports]
